@@ -155,4 +155,31 @@ func init() {
 			fmt.Sprintf("def MeasureClockOffsetSCION_ftm : String := %s", leanString(ftm)),
 		}
 	})
+	// net/scion Pather.Paths: what it returns (a copy of the table's slice — the round consumes
+	// its path list in place)
+	registerLocals("net/scion", func(files []*ast.File, fset *token.FileSet) []string {
+		fd := findFunc(files, "Pather.Paths")
+		if fd == nil {
+			broken("net/scion: method Pather.Paths not found")
+			return []string{"def Pather_Paths_returns : String := \"\""}
+		}
+		var rets []string
+		ast.Inspect(fd.Body, func(n ast.Node) bool {
+			if r, ok := n.(*ast.ReturnStmt); ok && len(r.Results) == 1 {
+				rets = append(rets, c15src(fset, r.Results[0]))
+			}
+			return true
+		})
+		if len(rets) == 0 {
+			broken("net/scion.Pather.Paths: no return statement found")
+		}
+		s := ""
+		for i, r := range rets {
+			if i > 0 {
+				s += " | "
+			}
+			s += r
+		}
+		return []string{fmt.Sprintf("def Pather_Paths_returns : String := %s", leanString(s))}
+	})
 }
